@@ -297,6 +297,28 @@ pub proof fn lemma_image_iter_no_placeholder(rem: Seq<&Term>, now: int, p: int)
         assert(image_iter_seq(rem, now, p) =~= rem);
     }
 }
+/// a placeholder index beyond the remaining items is never reached: the items only
+pub proof fn lemma_image_iter_beyond(rem: Seq<&Term>, now: int, p: int)
+    requires p > now + rem.len()
+    ensures image_iter_seq(rem, now, p) == rem
+    decreases rem.len()
+{
+    if rem.len() > 0 {
+        lemma_image_iter_beyond(rem.skip(1), now + 1, p);
+        assert(image_iter_seq(rem, now, p) =~= rem);
+    } else {
+        assert(image_iter_seq(rem, now, p) =~= rem);
+    }
+}
+/// both cases at once (callable without a case split on prophetic values)
+pub proof fn lemma_image_iter_cases(rem: Seq<&Term>, now: int, p: int)
+    ensures
+        now <= p <= now + rem.len() ==> image_iter_seq(rem, now, p) == rem.insert(p - now, &Term::Placeholder),
+        p > now + rem.len() ==> image_iter_seq(rem, now, p) == rem,
+{
+    if now <= p <= now + rem.len() { lemma_image_iter_is_insert(rem, now, p); }
+    if p > now + rem.len() { lemma_image_iter_beyond(rem, now, p); }
+}
 /// one-step unfolding of image_iter_seq in head / tail form (what vstd's law for `next` needs)
 pub proof fn lemma_image_iter_unfold(rem: Seq<&Term>, now: int, p: int)
     ensures
